@@ -192,7 +192,7 @@ Section Effect.
      through a descriptor whose close() succeeded; all older inodes are unchanged *)
   Definition output_complete_closed (b a : fs) (op q : path) : Prop :=
     exists iin ndin j nd,
-      nlook b op = Some (DLink iin) /\ ilook b iin = Some ndin /\
+      resolve b SYMLOOP_MAX op = SOk iin /\ ilook b iin = Some ndin /\
       nlook a q = Some (DLink j) /\ ilook a j = Some nd /\ ilook b j = None /\
       i_kind nd = KReg /\ i_committed nd = true /\
       expected_output (i_data ndin) = Some (i_data nd) /\ keeps b a.
